@@ -10,7 +10,7 @@ from .solve import discharge
 
 class FunctionReport:
     def __init__(self, contract):
-        self.contract = contract
+        self.contract_name = contract.name
         self.sha = None
         self.paths = 0
         self.vcs = 0
